@@ -24,8 +24,8 @@ func init() {
 			{Name: "String walker checks the kind before null-ness", File: resolvableGo, Rule: "C02-R3", Key: "walkString",
 				Old: "\tif astjson.ValueIsNull(value) {\n\t\tif s.Nullable {\n\t\t\treturn r.walkNull()\n\t\t}\n\t\tr.addNonNullableFieldError(s.Path, parent)\n\t\treturn r.err()\n\t}\n\tif value.Type() != astjson.TypeString {",
 				New: "\tif value != nil && value.Type() != astjson.TypeString && value.Type() != astjson.TypeNull {\n\t\tr.addError(\"String cannot represent non-string value\", s.Path)\n\t\treturn r.err()\n\t}\n\tif astjson.ValueIsNull(value) {\n\t\tif s.Nullable {\n\t\t\treturn r.walkNull()\n\t\t}\n\t\tr.addNonNullableFieldError(s.Path, parent)\n\t\treturn r.err()\n\t}\n\tif value.Type() != astjson.TypeString {"},
-			{Name: "Boolean walker ignores Nullable on the null edge", File: resolvableGo, Rule: "C02-R3", Key: "walkBoolean",
-				Old: "\tif astjson.ValueIsNull(value) {\n\t\tif b.Nullable {\n\t\t\treturn r.walkNull()\n\t\t}\n\t\tr.addNonNullableFieldError(b.Path, parent)\n\t\treturn r.err()\n\t}", New: "\tif astjson.ValueIsNull(value) {\n\t\t_ = parent\n\t\treturn r.walkNull()\n\t}"},
+			{Name: "Integer walker ignores Nullable on the null edge", File: resolvableGo, Rule: "C02-R3", Key: "walkInteger",
+				Old: "\tif astjson.ValueIsNull(value) {\n\t\tif i.Nullable {\n\t\t\treturn r.walkNull()\n\t\t}\n\t\tr.addNonNullableFieldError(i.Path, parent)\n\t\treturn r.err()\n\t}", New: "\tif astjson.ValueIsNull(value) {\n\t\t_ = parent\n\t\treturn r.walkNull()\n\t}"},
 			{Name: "authorization nulling also runs in the render pass", File: resolvableGo, Rule: "C02-R4", Key: "walkFields",
 				Old: "\t\tif !r.render() {\n\t\t\tskip := r.authorizeField(value, obj.Fields[i])", New: "\t\t{\n\t\t\tskip := r.authorizeField(value, obj.Fields[i])"},
 			{Name: "runtime type-name stack popped inline only on the success path", File: resolvableGo, Rule: "C02-R5", Key: "walkObject",
